@@ -322,6 +322,28 @@ def C_unchanged_pairs(repo, clause):
         raise AnalysisError("C08: loops are not enumerate over <structure>.positions")
     gs = norm_guards(fn, a)
     dist_ok = el_ok = False
+    dist_unrecognised = False
+
+    def _is_distance(e):
+        """norm(d), sqrt(dot(d, d)), sqrt(sum(d ** 2)), (...) ** 0.5 of such a sum: the Euclidean length of d"""
+        if isinstance(e, ast.Call) and call_name(e) == "norm" and e.args and not e.keywords:
+            return True
+        inner = None
+        if isinstance(e, ast.Call) and call_name(e) == "sqrt" and len(e.args) == 1:
+            inner = e.args[0]
+        elif isinstance(e, ast.BinOp) and isinstance(e.op, ast.Pow) and const_value(e.right) == 0.5:
+            inner = e.left
+        if inner is None:
+            return False
+        if isinstance(inner, ast.Call) and call_name(inner) in ("dot", "vdot", "inner") and len(inner.args) == 2 and nf(inner.args[0]) == nf(inner.args[1]):
+            return True
+        if isinstance(inner, ast.BinOp) and isinstance(inner.op, ast.MatMult) and nf(inner.left) == nf(inner.right):
+            return True
+        if isinstance(inner, ast.Call) and call_name(inner) == "sum" and len(inner.args) + (1 if isinstance(inner.func, ast.Attribute) and call_name(inner) == "sum" and not inner.args else 0) == 1:
+            sq = inner.args[0] if inner.args else inner.func.value
+            if isinstance(sq, ast.BinOp) and ((isinstance(sq.op, ast.Pow) and const_value(sq.right) == 2) or (isinstance(sq.op, ast.Mult) and nf(sq.left) == nf(sq.right))):
+                return True
+        return False
     for t, pol, k in gs:
         if not pol:
             continue
@@ -329,16 +351,18 @@ def C_unchanged_pairs(repo, clause):
         for p in parts:
             if isinstance(p, ast.Compare) and len(p.ops) == 1:
                 pl = expand(fn, p.left)
-                if isinstance(p.ops[0], (ast.Lt, ast.LtE)) and isinstance(p.comparators[0], ast.Name) and p.comparators[0].id in fn.params \
-                        and isinstance(pl, ast.Call) and call_name(pl) == "norm":
+                if isinstance(p.ops[0], (ast.Lt, ast.LtE)) and isinstance(p.comparators[0], ast.Name) and p.comparators[0].id in fn.params:
                     names = names_in(pl)
-                    dist_ok = io[1] in names and ii[1] in names
+                    if _is_distance(pl):
+                        dist_ok = io[1] in names and ii[1] in names
+                    elif io[1] in names and ii[1] in names:
+                        dist_unrecognised = True
                 if isinstance(p.ops[0], ast.Eq):
                     txt = {re.sub(r"\s", "", ast.unparse(p.left)), re.sub(r"\s", "", ast.unparse(p.comparators[0]))}
                     el_ok = txt == {"%s.elements[%s]" % (io[2], io[0]), "%s.elements[%s]" % (ii[2], ii[0])}
     obs.append(Ob("Cpair", clause, fn, a, dist_ok and el_ok,
                   "atoms are paired only under (distance of the two positions < max_delta)=%s AND (equal element of exactly these two atoms)=%s" % (dist_ok, el_ok),
-                  slot="pair-condition"))
+                  slot="pair-condition", undecided=dist_unrecognised and not dist_ok and el_ok))
     v = a.args[0]
     ok = isinstance(v, ast.Tuple) and [ast.unparse(e) for e in v.elts] == [io[0], ii[0]] and io[2] == fn.params[0] and ii[2] == fn.params[1]
     obs.append(Ob("Cpair", clause, fn, a, ok, "pair = (index in the first argument, index in the second argument)", slot="pair-order"))
@@ -992,6 +1016,77 @@ def C_idx_extend(repo, clause):
     return obs
 
 
+def _angle_coefficients(fn, e, depth=5):
+    """The set of constant factors with which the arccos angle enters the expression e (through products / quotients with constants, negation and
+    local copies); None when e is not of that form."""
+    from verif_sa.dataflow import _assigned_value, PARAM
+    if depth < 0:
+        return None
+    if isinstance(e, ast.Call) and call_name(e) == "arccos":
+        return {1.0}
+    if isinstance(e, ast.UnaryOp) and isinstance(e.op, ast.USub):
+        r = _angle_coefficients(fn, e.operand, depth)
+        return None if r is None else {-k for k in r}
+    if isinstance(e, ast.BinOp) and isinstance(e.op, (ast.Mult, ast.Div)):
+        cl, cr = const_value(e.left), const_value(e.right)
+        if isinstance(cr, (int, float)) and not isinstance(cr, bool) and cr != 0:
+            r = _angle_coefficients(fn, e.left, depth)
+            return None if r is None else {(k * cr if isinstance(e.op, ast.Mult) else k / cr) for k in r}
+        if isinstance(cl, (int, float)) and not isinstance(cl, bool) and isinstance(e.op, ast.Mult):
+            r = _angle_coefficients(fn, e.right, depth)
+            return None if r is None else {k * cl for k in r}
+        return None
+    if isinstance(e, ast.Name):
+        defs = [n for n in fn.own_nodes() if isinstance(n, (ast.Assign, ast.AugAssign)) and any(
+            isinstance(t, ast.Name) and t.id == e.id for t in (n.targets if isinstance(n, ast.Assign) else [n.target]))]
+        if not defs or e.id in fn.params:
+            return None
+        out = set()
+        base = set()
+        for d in defs:
+            if isinstance(d, ast.Assign):
+                av = _assigned_value(d, e.id)
+                if av is None:
+                    return None
+                if any(isinstance(x, ast.Name) and x.id == e.id for x in ast.walk(av[1])):
+                    continue   # x = -x: handled below as a factor on the other definitions
+                r = _angle_coefficients(fn, av[1], depth - 1)
+                if r is None:
+                    return None
+                base |= r
+        out |= base
+        for d in defs:
+            if isinstance(d, ast.AugAssign):
+                c_ = const_value(d.value)
+                if not isinstance(d.op, (ast.Mult, ast.Div)) or not isinstance(c_, (int, float)) or isinstance(c_, bool) or c_ == 0:
+                    return None
+                out |= {(k * c_ if isinstance(d.op, ast.Mult) else k / c_) for k in base}
+            elif isinstance(d, ast.Assign):
+                av = _assigned_value(d, e.id)
+                if any(isinstance(x, ast.Name) and x.id == e.id for x in ast.walk(av[1])):
+                    # self-referential re-definition: evaluate with the name standing for each base coefficient
+                    for k in list(base):
+                        sub = _SubstName(e.id, k).visit(__import__("copy").deepcopy(av[1]))
+                        r = _angle_coefficients(fn, sub, depth - 1)
+                        if r is None:
+                            return None
+                        out |= r
+        return out or None
+    if isinstance(e, ast.Constant) and isinstance(e.value, tuple) and len(e.value) == 2 and e.value[0] == "__coef__":
+        return {e.value[1]}
+    return None
+
+
+class _SubstName(ast.NodeTransformer):
+    def __init__(self, name, k):
+        self.name, self.k = name, k
+
+    def visit_Name(self, n):
+        if n.id == self.name:
+            return ast.copy_location(ast.Constant(("__coef__", self.k)), n)
+        return n
+
+
 def C_quaternion_layout(repo, clause):
     """Rotation construction: SciPy's Rotation.from_quat takes (x, y, z, w) - vector part first, scalar last - and a
     rotation by `angle` about a unit axis is (axis*sin(angle/2), cos(angle/2)).  Both helpers must build exactly that,
@@ -1017,15 +1112,16 @@ def C_quaternion_layout(repo, clause):
                 if len(sin_part) == 1 and cos_part is not None:
                     same_angle = nf(sin_part[0].args[0]) == nf(cos_part.args[0])
                     right_fn = call_name(sin_part[0]) == "sin" and call_name(cos_part) == "cos"
-                    half = isinstance(cos_part.args[0], ast.BinOp) and isinstance(cos_part.args[0].op, ast.Div) and const_value(cos_part.args[0].right) == 2
+                    coefs = _angle_coefficients(fn, cos_part.args[0])
+                    half = coefs is not None and all(abs(k_) == 0.5 for k_ in coefs)
                     ok = same_angle and right_fn and half
-                    positive = True
+                    positive = coefs is not None or not (same_angle and right_fn)
                     detail = "quaternion = [*(axis * sin(%s)), cos(%s)]: vector part uses sin=%s, scalar part uses cos=%s, same half angle=%s, half angle=%s" % (
                         ast.unparse(sin_part[0].args[0]), ast.unparse(cos_part.args[0]), call_name(sin_part[0]) == "sin", call_name(cos_part) == "cos", same_angle, half)
             elif isinstance(s_, ast.Starred):
                 positive = True
                 detail = "scalar part comes FIRST: SciPy's from_quat expects (x, y, z, w)"
-        obs.append(Ob("Cquat", clause, fn, c, ok, detail, slot="layout:%s" % q, positive=positive))
+        obs.append(Ob("Cquat", clause, fn, c, ok, detail, slot="layout:%s" % q, positive=positive, undecided=not positive and recognised))
         # the axis is normalised before it is used
         norms = [n for n in fn.own_nodes() if isinstance(n, ast.AugAssign) and isinstance(n.op, ast.Div) and isinstance(n.target, ast.Name)
                  and isinstance(n.value, ast.Call) and call_name(n.value) == "norm" and ast.unparse(n.value.args[0]) == n.target.id]
@@ -1056,6 +1152,77 @@ def C_quaternion_layout(repo, clause):
     obs.append(Ob("Cquat", clause, fn, qc[0] if qc else fn.node, ok, detail, slot="farthest-from-axis-columns", positive=positive))
     obs.extend(_roll_sign(repo, clause))
     return obs
+
+
+def _roll_sense_by_terms(fn):
+    """(ok, detail) from the PE term of the quaternion's sine argument, or None when the term is not a phi of signed multiples of the angle."""
+    from verif_sa.pe import P, Normalizer, decision_list
+    try:
+        dl = decision_list(fn.node, {p: P(p) for p in fn.params}, Normalizer({}))
+    except Exception:
+        return None
+    rets = [leaf for conds, leaf in dl if isinstance(leaf, tuple) and leaf and leaf[0] == "ret"]
+    if len(rets) != 1:
+        return None
+
+    def find(t, pred):
+        if isinstance(t, tuple):
+            if pred(t):
+                return t
+            for x in t:
+                r = find(x, pred)
+                if r is not None:
+                    return r
+        return None
+    sin = find(rets[0], lambda t: len(t) >= 4 and t[0] == "mcall" and t[2] == "sin")
+    if sin is None:
+        return None
+    arg = sin[3][1] if len(sin[3]) > 1 else None
+
+    def mentions(t, name):
+        return find(t, lambda x: len(x) >= 3 and x[0] in ("mcall",) and x[2] == name) is not None or find(t, lambda x: len(x) >= 2 and x[0] == "call" and x[1] == name) is not None
+
+    def coef(t):
+        """{(condition-or-None, coefficient)}: signed multiples of the arccos angle, split at phi nodes"""
+        if not isinstance(t, tuple):
+            return None
+        if t[0] == "mcall" and t[2] == "arccos":
+            return [((), 1.0)]
+        if t[0] == "neg":
+            r = coef(t[1])
+            return None if r is None else [(c, -k) for c, k in r]
+        if t[0] in ("mul", "div") and len(t) == 3:
+            a, b = t[1], t[2]
+            if isinstance(b, tuple) and b[0] == "const" and isinstance(b[1], (int, float)) and b[1] != 0:
+                r = coef(a)
+                return None if r is None else [(c, k * b[1] if t[0] == "mul" else k / b[1]) for c, k in r]
+            if isinstance(a, tuple) and a[0] == "const" and isinstance(a[1], (int, float)) and t[0] == "mul":
+                r = coef(b)
+                return None if r is None else [(c, k * a[1]) for c, k in r]
+            return None
+        if t[0] == "phi" and len(t) == 4:
+            ra, rb = coef(t[2]), coef(t[3])
+            if ra is None or rb is None:
+                return None
+            return [(c + ((t[1], True),), k) for c, k in ra] + [(c + ((t[1], False),), k) for c, k in rb]
+        return None
+    cs = coef(arg)
+    if cs is None:
+        return None
+    par, anti = [], []
+    for conds, k in cs:
+        tests = [(c, pol) for c, pol in conds if mentions(c, "cross") and (mentions(c, "isclose") or mentions(c, "allclose"))]
+        if len(tests) != 1 or len(conds) != 1:
+            return None
+        c, pol = tests[0]
+        while isinstance(c, tuple) and c[0] == "not":
+            c, pol = c[1], not pol
+        (par if pol else anti).append(k)
+    if not par or not anti:
+        return None
+    ok = all(k == 0.5 for k in par) and all(k == -0.5 for k in anti)
+    return ok, ("the sine argument is %s x theta where cross(v1, v2) is parallel to the axis and %s x theta otherwise%s" % (
+        sorted(set(par)), sorted(set(anti)), "" if ok else ": a right-handed roll needs +theta/2 on the parallel branch and -theta/2 on the other - the orientation point is rolled the WRONG way"))
 
 
 def _roll_sign(repo, clause):
@@ -1107,7 +1274,14 @@ def _roll_sign(repo, clause):
             if pol and any(isinstance(x, ast.Call) and call_name(x) == "cross" for x in ast.walk(t)) and any(isinstance(x, ast.Call) and call_name(x) in ("isclose", "allclose") for x in ast.walk(t)):
                 par_guard = True
     if s_q is None:
-        obs.append(Ob("Cquat", clause, fn, fq[0], False, "roll sense: the angle does not enter the quaternion as a signed multiple of the arccos result", slot="roll-sense", undecided=True))
+        # other spellings (half angle in a local, negated on one branch): decide on the partial evaluator's term for the sine argument - a phi over the
+        # parallel test whose two sides are constant multiples of the arccos angle
+        verdict = _roll_sense_by_terms(fn)
+        if verdict is not None:
+            ok_, detail_ = verdict
+            obs.append(Ob("Cquat", clause, fn, fq[0], ok_, detail_, slot="roll-sense", positive=not ok_))
+        else:
+            obs.append(Ob("Cquat", clause, fn, fq[0], False, "roll sense: the angle does not enter the quaternion as a signed multiple of the arccos result", slot="roll-sense", undecided=True))
         return obs
     ok = (s_q == -1 and flip_node is not None and par_guard and s_b == -1) or (s_q == 1 and flip_node is not None and not par_guard and False)
     if s_q == -1:
